@@ -18,18 +18,18 @@ func init() {
 
 // recMod describes the symmetric WRKChain / BEACON modules (the specification tables).
 type recMod struct {
-	M                                      string
-	SecReg, SecRec, SecLimit, SecHigh      string
-	Register, Record, Purchase             string // service methods
-	IDField                                string // message field naming the registration
-	RegID                                  string // id field of the registration struct
-	Cursor                                 string // Lastblock / LastTimestampId
-	Count, Lowest                          string // NumBlocks/LowestHeight, NumInState/FirstIdInState
-	RecFields                              map[string]string // stored record field -> message field ("@time" = block time, "@cursor+1")
-	RegFields                              map[string]string // stored registration field -> message field at registration
-	RecordQuery, StorageQuery              string
-	RecKeyMsg                              []string // message fields forming the record key ("@cursor+1" allowed)
-	SizeFields                             []string
+	M                                 string
+	SecReg, SecRec, SecLimit, SecHigh string
+	Register, Record, Purchase        string            // service methods
+	IDField                           string            // message field naming the registration
+	RegID                             string            // id field of the registration struct
+	Cursor                            string            // Lastblock / LastTimestampId
+	Count, Lowest                     string            // NumBlocks/LowestHeight, NumInState/FirstIdInState
+	RecFields                         map[string]string // stored record field -> message field ("@time" = block time, "@cursor+1")
+	RegFields                         map[string]string // stored registration field -> message field at registration
+	RecordQuery, StorageQuery         string
+	RecKeyMsg                         []string // message fields forming the record key ("@cursor+1" allowed)
+	SizeFields                        []string
 }
 
 var recMods = []recMod{
@@ -362,7 +362,9 @@ func C09(c *Ctx) {
 	for _, rm := range recMods {
 		n := whoMayReach(c, "A1.registration-writers", "the "+rm.M+" id counter", func(e ir.Effect) bool { return e.Kind == "StoreWrite" && e.Section == rm.SecHigh }, []string{"MSG:" + rm.M + "." + rm.Register, "INITGEN:" + rm.M})
 		n += whoMayReach(c, "A1.registration-writers", "the "+rm.M+" registration section", func(e ir.Effect) bool { return e.Kind == "StoreWrite" && e.Section == rm.SecReg }, []string{"MSG:" + rm.M + "." + rm.Register, "MSG:" + rm.M + "." + rm.Record, "INITGEN:" + rm.M})
-		n += whoMayReach(c, "A1.registration-writers", "deleting "+rm.M+" registrations", func(e ir.Effect) bool { return e.Kind == "StoreDelete" && (e.Section == rm.SecReg || e.Section == rm.SecHigh || e.Section == rm.SecLimit) }, []string{})
+		n += whoMayReach(c, "A1.registration-writers", "deleting "+rm.M+" registrations", func(e ir.Effect) bool {
+			return e.Kind == "StoreDelete" && (e.Section == rm.SecReg || e.Section == rm.SecHigh || e.Section == rm.SecLimit)
+		}, []string{})
 		r.Floor("root/registration-writer pairs of "+rm.M, n, 5)
 		h := handlerOf(c, rm.M, rm.Register)
 		if h == nil {
@@ -904,7 +906,9 @@ func prunePairing(c *Ctx, rm recMod) {
 			r.Require(precedes, "A3.prune-pairing", rm.M+"|count-1 needs delete|"+fn(f), w.Pos(f.Pos()), "the in-state count is decremented only after a record was deleted", "a path decrements without deleting")
 			// and only when count > limit
 			un := w.FlatGuarded(f, isDec, func(p ir.Pred) bool {
-				return cmpIs(p, ">", func(a *ir.Expr) bool { return a.Any(func(z *ir.Expr) bool { return z.Op == "field" && z.Name == rm.Count }) }, func(b *ir.Expr) bool {
+				return cmpIs(p, ">", func(a *ir.Expr) bool {
+					return a.Any(func(z *ir.Expr) bool { return z.Op == "field" && z.Name == rm.Count })
+				}, func(b *ir.Expr) bool {
 					_, ok := allStateField(c, b, rm.SecLimit, "InStateLimit")
 					return ok || w.Expand(b, 4).Any(func(z *ir.Expr) bool { return isStateField(z, rm.SecLimit, "InStateLimit") })
 				})
